@@ -73,6 +73,10 @@ impl<T> RcDeref for MutArc<T> {
   fn rc_deref(&self) -> Self::Ref<'_> {
     #[cfg(rxrust_verif)]
     crate::scheduler::verif_hook::lock_point(Arc::as_ptr(&self.0) as *const () as usize);
+    #[cfg(rxrust_verif)]
+    crate::scheduler::verif_hook::lock_gate(Arc::as_ptr(&self.0) as *const () as usize, &|| {
+      !matches!(self.0.try_lock(), Err(std::sync::TryLockError::WouldBlock))
+    });
     self.0.lock().unwrap()
   }
 }
@@ -95,6 +99,10 @@ impl<T> RcDerefMut for MutArc<T> {
   fn rc_deref_mut(&self) -> Self::MutRef<'_> {
     #[cfg(rxrust_verif)]
     crate::scheduler::verif_hook::lock_point(Arc::as_ptr(&self.0) as *const () as usize);
+    #[cfg(rxrust_verif)]
+    crate::scheduler::verif_hook::lock_gate(Arc::as_ptr(&self.0) as *const () as usize, &|| {
+      !matches!(self.0.try_lock(), Err(std::sync::TryLockError::WouldBlock))
+    });
     self.0.lock().unwrap()
   }
 }
